@@ -1,6 +1,7 @@
 package jsontext
 
 import (
+	"bytes"
 	"io"
 
 	"github.com/go-json-experiment/json/internal/zzverif/vrt"
@@ -450,5 +451,39 @@ func VerifC20ResetMisuse() {
 	_, err := d.ReadValue()
 	vrt.Assert("C20/total/decoder-usable-after-refused-reset", err == nil)
 	vrt.Assert("C20/total/encoder-usable-after-refused-reset", e.WriteToken(Null) == nil)
+	vrt.Cover("end")
+}
+
+// VerifC20FlushPointer: an Encoder whose buffer is flushed in the middle of a value (inside
+// an object member holding an array of n strings) still answers StackPointer / StackIndex
+// without panicking. wkind: 0 plain writer, 1 *bytes.Buffer.
+func VerifC20FlushPointer(wkind, n int) {
+	var w io.Writer
+	bb := new(bytes.Buffer)
+	sink := new(zzSink)
+	if wkind == 1 {
+		w = bb
+	} else {
+		w = sink
+	}
+	e := NewEncoder(w)
+	c := vrt.Byte("c")
+	vrt.Assume(zzspec.InAlphabet([]byte{c}, 3))
+	// a first long member pushes the name of the second one far into the buffer
+	ok := e.WriteToken(BeginObject) == nil && e.WriteToken(String("pad")) == nil &&
+		e.WriteToken(String("0123456789abcdef0123456789abcdef0123456789abcdef0123456789abcdef")) == nil &&
+		e.WriteToken(String("k"+string(rune(c)))) == nil && e.WriteToken(BeginArray) == nil
+	base := bb.Len() + len(sink.buf)
+	for i := 0; i < n && ok && bb.Len()+len(sink.buf) == base; i++ {
+		ok = e.WriteToken(String("0123456789abcdef")) == nil
+	}
+	vrt.Assert("C20/flush/calls-accepted", ok)
+	if bb.Len()+len(sink.buf) > base {
+		vrt.Cover("flushed-mid-value") // the very last call flushed: the buffer is (nearly) empty now
+	}
+	var ptr Pointer
+	vrt.Assert("C20/flush/stack-pointer-does-not-panic", !vrt.Misuse(func() { ptr = e.StackPointer() }))
+	vrt.Observe("ptr", string(ptr))
+	vrt.Assert("C20/flush/rest-accepted", e.WriteToken(EndArray) == nil && e.WriteToken(EndObject) == nil)
 	vrt.Cover("end")
 }
